@@ -317,8 +317,8 @@ def rule_sets(F, rep, R):
             outs = _walk(F, rep, fn, ords=[o], env={str(ia): 5, str(ja): 9}, arith=True, extra_term=term)
             seen = set()
             for oc in outs:
-                if em.is_err_return(oc):
-                    continue
+                if em.is_err_return(oc) or oc[0].startswith("diverge") or oc[0] == "unreachable":
+                    continue            # error returns and panics (a failed debug_assert!) are not steps of the walk
                 emits = sum(1 for m in oc[1] if m == ("emit",))
                 cont = None
                 for m in oc[1]:
